@@ -42,7 +42,10 @@ func quoteParam(u string) string {
 type c14case struct {
 	u      string
 	quoted bool
+	sep    string // what stands between the keyword and the parameter ("" = one blank)
 }
+
+var c14seps = []string{" ", "\t", "  ", "\t\t", " \t", "\t \t", "   \t  "}
 
 func c14Job(id string, cs c14case) *proto.Job {
 	p := cs.u
@@ -50,7 +53,7 @@ func c14Job(id string, cs c14case) *proto.Job {
 		p = quoteParam(cs.u)
 	}
 	files := map[string][]byte{
-		"root.jst":       []byte("JSIGHT 0.3\nINCLUDE " + p + "\n"),
+		"root.jst":       []byte("JSIGHT 0.3\nINCLUDE" + map[bool]string{true: " ", false: cs.sep}[cs.sep == ""] + p + "\n"),
 		"a":              []byte("TYPE @a any\n"),
 		"aa/a":           []byte("TYPE @aaa any\n"),
 		"aa/aa/a":        []byte("TYPE @aaaaa any\n"),
@@ -389,11 +392,12 @@ func c14Tree(c *fw.Ctx, j *proto.Job, res *proto.Result, t *treeProj) {
 func C14(c *fw.Ctx) {
 	c.Level = "fault_enumeration"
 	maxLen := c.Pick(5, 7)
-	c.Rule(fmt.Sprintf("parameters: ALL strings over {a . / \\ ~} of length <= %d, each bare and quoted, plus seeded longer ones (percent-encoding, "+
+	c.Rule(fmt.Sprintf("parameters: ALL strings over {a . / \\ ~} of length <= %d, each bare and quoted (after one of seven runs of blanks and tabs), plus seeded longer ones (percent-encoding, "+
 		"UTF-8, trailing slashes, long names) against a sandbox with files and directories inside the project and decoys outside; "+
 		"include graphs: all digraphs on <= 3 files and sampled graphs on 4-5 files (files hold only INCLUDEs); include trees: seeded projects "+
 		"with files in six nested directories where the same parameter text occurs in several directories and resolves to different files, to a "+
-		"directory or to nothing - the set of consulted paths must equal the set a reference resolver (parameter relative to the directory of its "+
+		"directory or to nothing, and 7 targets that exist but are no regular files (named pipe, links to devices, to a directory, dangling, " +
+		"to itself) - the set of consulted paths must equal the set a reference resolver (parameter relative to the directory of its "+
 		"file, depth-first, stop at the first miss) computes, and a miss must be an error at that INCLUDE; the deciding observer is the "+
 		"file-access hook (every Stat/ReadFile the builder issues); thorough tier: an strace pass cross-checks the hook against the kernel; "+
 		"distinct = distinct project bytes; non-trivial = every case", maxLen))
@@ -404,7 +408,7 @@ func C14(c *fw.Ctx) {
 	var rec func(cur []byte)
 	rec = func(cur []byte) {
 		if len(cur) > 0 {
-			cases = append(cases, c14case{string(cur), false}, c14case{string(cur), true})
+			cases = append(cases, c14case{u: string(cur)}, c14case{u: string(cur), quoted: true})
 		}
 		if len(cur) == maxLen {
 			return
@@ -419,9 +423,9 @@ func C14(c *fw.Ctx) {
 		"...", "..a", "a..", ".a", "a.", "aa/.a", "aa/a.", "aa/..a", "….jst", "a\u2215a", "a\uff0fa", "．．/a", "aa/aa/a", strings.Repeat("aa/", 40) + "a",
 		strings.Repeat("a", 255), strings.Repeat("a", 256), "~/a", "~root/a", "$HOME/a", "a;b", "a|b", "a b", "C:\\a", "\\\\host\\a", "a\\..\\a", "a/..\\a"}
 	for _, e := range extra {
-		cases = append(cases, c14case{e, true})
+		cases = append(cases, c14case{u: e, quoted: true})
 		if !strings.ContainsAny(e, " #\"") {
-			cases = append(cases, c14case{e, false})
+			cases = append(cases, c14case{u: e})
 		}
 	}
 	for i := 0; i < c.Pick(2000, 20000); i++ {
@@ -431,13 +435,15 @@ func C14(c *fw.Ctx) {
 		for k := range b {
 			b[k] = al[r.Intn(len(al))]
 		}
-		cases = append(cases, c14case{string(b), r.Intn(2) == 0})
+		cases = append(cases, c14case{u: string(b), quoted: r.Intn(2) == 0})
 	}
 	graphs := map[string]*incGraph{}
 	trees := map[string]*treeProj{}
 	c.RunJobs(pool, func(emit func(*proto.Job)) {
-		for i, cs := range cases {
-			emit(c14Job(fmt.Sprintf("param/%d", i), cs))
+		for i := range cases {
+			// the run of blanks and tabs in front of the parameter is layout: every case gets one of seven
+			cases[i].sep = c14seps[i%len(c14seps)]
+			emit(c14Job(fmt.Sprintf("param/%d", i), cases[i]))
 		}
 		// include graphs
 		names := []string{"root.jst", "b.jst", "c.jst"}
@@ -455,6 +461,15 @@ func C14(c *fw.Ctx) {
 			graphs[id] = ig
 			maxMuLock.Unlock()
 			emit(graphJob(id, ig))
+		}
+		// targets that exist but are not regular files: a named pipe, links to a device, to a directory and to a file outside the
+		// project, a dangling link - the build must end (an error at the INCLUDE, or the linked regular file), never wait or read on
+		for i, sp := range []struct{ target, content string }{
+			{"pipe.jst", "@@FIFO@@"}, {"zero.jst", "@@SYMLINK:/dev/zero@@"}, {"null.jst", "@@SYMLINK:/dev/null@@"}, {"dirlink.jst", "@@SYMLINK:sub@@"},
+			{"dangling.jst", "@@SYMLINK:nowhere.jst@@"}, {"selflink.jst", "@@SYMLINK:selflink.jst@@"}, {"tty.jst", "@@SYMLINK:/dev/tty@@"},
+		} {
+			emit(&proto.Job{ID: fmt.Sprintf("special/%d", i), Root: "root.jst", WantFiles: true, Files: map[string][]byte{
+				"root.jst": []byte("JSIGHT 0.3\nTYPE @before any\nINCLUDE " + sp.target + "\n"), sp.target: []byte(sp.content), "sub/x.jst": []byte("TYPE @x any\n")}})
 		}
 		tr := gen.Rng(c.Seed, c.ID, "trees")
 		for s := 0; s < c.Pick(1500, 60000); s++ {
@@ -502,6 +517,28 @@ func C14(c *fw.Ctx) {
 			c14Param(c, j, res, cases[i])
 			if c.NeedSample() && i%977 == 5 {
 				c.Sample(map[string]interface{}{"parameter": cases[i].u, "quoted": cases[i].quoted, "file_events": res.Files, "error": res.Err})
+			}
+			return
+		}
+		if strings.HasPrefix(j.ID, "special/") {
+			c.Inc("special_targets", "named-pipe-device-link", 1)
+			rp := replayOf(j, res)
+			if res.Fatal != nil {
+				c.Violate("special:"+res.Fatal.Kind, "an INCLUDE of something that is not a regular file did not return: "+firstLines(res.Fatal.Stderr, 4), rp)
+				return
+			}
+			if sig, what := crashSig(res); sig != "" {
+				c.Violate(sig, what, rp)
+				return
+			}
+			if res.Err == nil {
+				if !strings.Contains(string(j.Files["null.jst"]), "SYMLINK") { // /dev/null reads as an empty file: accepted or refused, both end
+					c.Violate("special:accepted", "an INCLUDE of a pipe, device, directory link or dangling link was accepted", rp)
+				}
+				return
+			}
+			if res.Err.Line != 3 || relName(res, res.Err.File) != "root.jst" {
+				c.Violate("special:error-location", fmt.Sprintf("error at %s:%d, the INCLUDE is at root.jst:3 (%s)", relName(res, res.Err.File), res.Err.Line, res.Err.Msg), rp)
 			}
 			return
 		}
